@@ -29,6 +29,55 @@ func init() {
 
 func runC18(w *World, r *Report) {
 	// ---- return-directly: the FIRST matching call of the message is the one returned
+	// a per-chunk converter of a stream runs once for EVERY chunk, lazily, whenever the consumer reads: it must not update
+	// the run's state (or anything else that outlives the chunk) — Generate sees the whole result in one call, Stream would
+	// see the update after the first chunk
+	r.Rule("C18.chunk-converters-pure", "the converters the agent hands to StreamReaderWithConvert (and the state callbacks they run) write no field of an object they were given: per-chunk code only reads the state", 1)
+	{
+		swc := w.Fn("schema", "StreamReaderWithConvert")
+		n := 0
+		for _, fn := range w.RepoFuncs("flow") {
+			instrs(fn, func(in ssa.Instruction) {
+				c, ok := in.(ssa.CallInstruction)
+				if !ok {
+					return
+				}
+				sc := staticCallee(c)
+				if sc == nil || origin(sc) != swc || len(c.Common().Args) < 2 {
+					return
+				}
+				var lit *ssa.Function
+				switch a := c.Common().Args[1].(type) {
+				case *ssa.MakeClosure:
+					lit, _ = a.Fn.(*ssa.Function)
+				case *ssa.Function:
+					lit = a
+				}
+				if lit == nil {
+					return
+				}
+				n++
+				bad := ""
+				pos := lit.Pos()
+				for _, f := range withAnons(lit) {
+					for _, fw := range fieldWrites(f) {
+						if p := paramRoot(fw.base, 0); p != nil {
+							bad = fmt.Sprintf("%s writes %s through its parameter %s", w.fname(f), fw.field.Name(), p.Name())
+							pos = fw.in.Pos()
+						}
+					}
+				}
+				r.Check(bad == "", "C18.chunk-converters-pure", "per-chunk converter "+w.fname(lit)+" only reads what it is given", pos, "no store through a parameter in the converter or the callbacks it runs", bad+": the converter runs once per chunk — with a tool result of two or more chunks the first chunk's update (e.g. clearing the return-directly mark) changes what the later chunks see, so Stream returns only the first chunk where Generate returns the whole result")
+			})
+		}
+		if n == 0 {
+			r.Fail("C18.chunk-converters-pure", "converters handed to StreamReaderWithConvert in flow/", swc.Pos(), "none found")
+		}
+	}
+
+	r.Rule("C18.tool-streams-merge", "the merge of the per-call tool result streams dispatches consistently for every number of calls (static select table up to its size, reflect select with a case table above it — shared with C01 / C04 / C08): Stream with exactly five tool calls must not hang where Generate answers", 1)
+	mergeDispatchCheck(w, r, "C18.tool-streams-merge")
+
 	r.Rule("C18.tools-on-callers-context", "the tools of a step run on the context of the agent call, not on one cancelled when the tools node returns its readers: a streaming tool delivers under Stream what it delivers under Generate (shared with C17.parallel-protocol)", 3)
 	toolsCallerCtxCheck(w, r, "C18.tools-on-callers-context")
 
